@@ -192,10 +192,17 @@ func (g *guide) candidates(maxReq int) []weighted {
 		for _, id := range ids {
 			switch st[id] {
 			case graphsync.Queued:
+				if g.r.sig[id] == 2 {
+					// a further update before the executor has looked at the first one
+					c = append(c, weighted{3, fmt.Sprintf("upd %d %d %s", p, id, updPlans[g.rnd.Intn(len(updPlans))])})
+				}
 				c = append(c, weighted{1, fmt.Sprintf("cancel %d %d", p, id)}, weighted{1, fmt.Sprintf("rcancel %d", id)},
 					weighted{1, fmt.Sprintf("pause %d", id)}, weighted{1, fmt.Sprintf("upd %d %d %s", p, id, updPlans[g.rnd.Intn(len(updPlans))])},
 					weighted{1, fmt.Sprintf("rupdate %d %d", id, g.rnd.Intn(2))})
 			case graphsync.Running:
+				if g.r.sig[id] == 2 {
+					c = append(c, weighted{4, fmt.Sprintf("upd %d %d %s", p, id, updPlans[g.rnd.Intn(len(updPlans))])})
+				}
 				c = append(c, weighted{2, fmt.Sprintf("cancel %d %d", p, id)}, weighted{2, fmt.Sprintf("rcancel %d", id)},
 					weighted{2, fmt.Sprintf("pause %d", id)}, weighted{2, fmt.Sprintf("upd %d %d %s", p, id, updPlans[g.rnd.Intn(len(updPlans))])},
 					weighted{2, fmt.Sprintf("rupdate %d %d", id, g.rnd.Intn(2))}, weighted{1, fmt.Sprintf("unpause %d 0", id)})
@@ -252,7 +259,7 @@ func (g *guide) drain(budget int) {
 				line = fmt.Sprintf("unpause %d 0", ids[0])
 			}
 		}
-		if line == "" && e.tq.Stats().Pending > 0 {
+		if line == "" && e.tq.Stats().Pending > 0 && g.last != "busy" {
 			if g.last == "none" {
 				line = "thaw"
 				g.lines = append(g.lines, line)
@@ -334,9 +341,12 @@ func genStall(rnd *rand.Rand, i int) []string {
 		}
 	}()
 	limit := []int{100, 120, 180}[rnd.Intn(3)]
-	variant := rnd.Intn(10)
-	if variant >= 8 {
-		return genPoolStall(g, rnd, limit, variant == 8)
+	variant := rnd.Intn(15)
+	if variant == 8 || variant == 9 {
+		return genPoolStall(g, rnd, limit, variant == 8, false)
+	}
+	if variant == 14 {
+		return genPoolStall(g, rnd, limit, true, true)
 	}
 	g.do(fmt.Sprintf("cfg 2 %d %d %d %d", limit, leafLen, innerLen, extLen))
 	// A's first request: 3 blocks; optionally a second one that is paused by its request hook
@@ -370,6 +380,24 @@ func genStall(rnd *rand.Rand, i int) []string {
 		g.do(fmt.Sprintf("upd 0 %d o", paused))
 	case 7: // control: responder update without data
 		g.do("rupdate 0 0")
+	case 10: // the stalled peer sends several updates for its running response, whose executor waits for memory
+		for j := 0; j < 2+rnd.Intn(2); j++ {
+			g.do(fmt.Sprintf("upd 0 0 %s", []string{"o", "x"}[rnd.Intn(2)]))
+		}
+	case 11: // ... and for a response that is still queued
+		q := g.nreq
+		g.do(g.fixedNew(0, "a", 2, "oo"))
+		for j := 0; j < 2+rnd.Intn(2); j++ {
+			g.do(fmt.Sprintf("upd 0 %d %s", q, []string{"o", "x"}[rnd.Intn(2)]))
+		}
+	case 12, 13: // the blocked send to the stalled peer fails: its streams are closed, its memory is released
+		// and the executor that waited for memory comes back
+		if variant == 13 {
+			g.do(g.fixedNew(0, "a", 2, "oo")) // a second response of A, still queued
+		}
+		g.do("net 0 fail")
+		g.drain(40)
+		g.do(g.fixedNew(0, "a", 2, "oo")) // A is served again afterwards
 	}
 	// B: an ordinary request, served with B's own sends acknowledged promptly
 	g.do(g.fixedNew(1, "a", 2+rnd.Intn(2), "ooo"))
@@ -406,7 +434,9 @@ func genStall(rnd *rand.Rand, i int) []string {
 		}
 		g.do(line)
 	}
-	if rnd.Intn(3) == 0 {
+	if variant == 12 || variant == 13 {
+		g.drain(80)
+	} else if rnd.Intn(3) == 0 {
 		// A recovers
 		g.do("net 0 ok")
 		g.do("net 0 ok")
@@ -424,7 +454,7 @@ func (g *guide) fixedNew(p int, hook string, n int, bh string) string {
 
 // bounded worker pool (taskqueue.Startup(n, ...)): peer 0 stalls with as many (exhaust) or fewer
 // (control) running requests than there are workers; then peer 1 sends a request
-func genPoolStall(g *guide, rnd *rand.Rand, limit int, exhaust bool) []string {
+func genPoolStall(g *guide, rnd *rand.Rand, limit int, exhaust bool, failA bool) []string {
 	nw := 2
 	if limit >= 180 {
 		limit = 120
@@ -450,6 +480,13 @@ func genPoolStall(g *guide, rnd *rand.Rand, limit int, exhaust bool) []string {
 		}
 	}
 	g.do(g.fixedNew(1, "a", 2, "oo"))
+	if failA {
+		// the blocked send to peer 0 fails: every executor parked on peer 0 must come back and free the pool
+		g.do("net 0 fail")
+		g.drain(60)
+		g.do("end")
+		return g.lines
+	}
 	k := len(g.r.e.workers)
 	// when peer 0 is healthy (baseline run of the oracle) its executors finish here and free the pool;
 	// when it is stalled these steps are refused (the executors wait for memory)
